@@ -38,9 +38,13 @@ def run_item(P, item):
     if kind == 'step':
         from . import vc_core
         cfg = Cfg(item['flavour'], item['policy'], limit=item['limit'], ttl=item['ttl'], mem=item['mem'], fw=item['fw'])
-        r = vc_core.run_step(P, cfg, item['n'], item['op'], props=set(item['props']), seed=item.get('seed', 0), timeout_ms=TIMEOUT_MS[item.get('tier', 'quick')], nmax=None, hits_max=item.get('hits_max', False))
+        r = vc_core.run_step(P, cfg, item['n'], item['op'], props=set(item['props']), seed=item.get('seed', 0), timeout_ms=TIMEOUT_MS[item.get('tier', 'quick')], nmax=None, hits_max=item.get('hits_max', False), inv_for=item.get('inv_for'))
         fails = list(r.failed)
         if 'C16' in item['props']: fails += [p for p in r.panics if True]
+        elif item.get('inv_for'):
+            # a core operation that panics / blocks from an Inv pre-state leaves the invariant un-established for this property too
+            for p_ in list(r.panics) + list(r.deadlocks):
+                q_ = dict(p_); q_['orig_prop'] = q_.get('prop'); q_['orig_clause'] = q_.get('clause'); q_['prop'] = item['inv_for']; fails.append(q_)
         else:
             # a panicking / self-deadlocking path has no post-state: every property that needs one is undecided there;
             # it is reported by C16 / C17.  Record it so that the evidence shows it.
